@@ -1,3 +1,3 @@
 SPECIFICATION Spec
-INVARIANTS StrictMeansListed SkippedOnlyWhenDisabled
+INVARIANTS StrictMeansListed SkippedOnlyWhenDisabled UnreadableNeverTrusted
 CHECK_DEADLOCK FALSE
